@@ -325,6 +325,17 @@ func forwardingCall(info *types.Info, fd *ast.FuncDecl) (*ast.CallExpr, []ast.Ex
 	subst := map[types.Object]ast.Expr{}
 	for _, st := range fd.Body.List[:len(fd.Body.List)-1] {
 		as, ok := st.(*ast.AssignStmt)
+		if ok && as.Tok == token.DEFINE && len(as.Rhs) == 1 && len(as.Lhs) > 1 {
+			// q, mrc := s.montgomeryParams() with an accessor that returns fields of its receiver
+			if rets := fieldAccessorResults(info, as.Rhs[0]); len(rets) == len(as.Lhs) {
+				for i, l := range as.Lhs {
+					if id, ok := l.(*ast.Ident); ok {
+						subst[info.Defs[id]] = rets[i]
+					}
+				}
+				continue
+			}
+		}
 		if !ok || as.Tok != token.DEFINE || len(as.Lhs) != len(as.Rhs) {
 			return nil, nil
 		}
@@ -347,6 +358,50 @@ func forwardingCall(info *types.Info, fd *ast.FuncDecl) (*ast.CallExpr, []ast.Ex
 	if !ok {
 		return nil, nil
 	}
+	// the call goes through a helper that receives the kernel as a function value and adds the receiver's constants:
+	// s.montgomery3(kernel, p1, p2, p3) with montgomery3's body `kernel(p1, p2, p3, s.Modulus, s.MRedConstant)`
+	if h := calleeFunc(info, call); h != nil {
+		if hd := fnDecls[h]; hd != nil && hd.Recv != nil && hd.Body != nil && len(hd.Body.List) == 1 {
+			if hes, ok := hd.Body.List[0].(*ast.ExprStmt); ok {
+				if hcall, ok := hes.X.(*ast.CallExpr); ok {
+					if fid, ok := unparen(hcall.Fun).(*ast.Ident); ok {
+						hpar := map[types.Object]int{}
+						k := 0
+						for _, fl := range hd.Type.Params.List {
+							for _, nm := range fl.Names {
+								hpar[info.Defs[nm]] = k
+								k++
+							}
+						}
+						if fi, isParam := hpar[info.Uses[fid]]; isParam && k == len(call.Args) {
+							okAll := true
+							args := make([]ast.Expr, len(hcall.Args))
+							for i, a := range hcall.Args {
+								args[i] = a
+								if id, ok := unparen(a).(*ast.Ident); ok {
+									if pi, isP := hpar[info.Uses[id]]; isP {
+										args[i] = call.Args[pi]
+										if id2, ok := unparen(args[i]).(*ast.Ident); ok {
+											if r, ok := subst[info.Uses[id2]]; ok {
+												args[i] = r
+											}
+										}
+									} else {
+										okAll = false
+									}
+								} else if _, isSel := unparen(a).(*ast.SelectorExpr); !isSel {
+									okAll = false
+								}
+							}
+							if okAll {
+								return &ast.CallExpr{Fun: call.Args[fi], Lparen: call.Lparen, Args: args, Rparen: call.Rparen}, args
+							}
+						}
+					}
+				}
+			}
+		}
+	}
 	args := make([]ast.Expr, len(call.Args))
 	for i, a := range call.Args {
 		args[i] = a
@@ -357,6 +412,74 @@ func forwardingCall(info *types.Info, fd *ast.FuncDecl) (*ast.CallExpr, []ast.Ex
 		}
 	}
 	return call, args
+}
+
+// fnDecls: every function declaration with a body, by its object (program-wide, filled before the rules run).
+var fnDecls = map[*types.Func]*ast.FuncDecl{}
+
+// fieldAccessorResults: for a call of a method whose whole body returns fields of its receiver (`return s.Modulus,
+// s.MRedConstant`, or named results assigned from such fields followed by a bare return), the returned field expressions.
+func fieldAccessorResults(info *types.Info, e ast.Expr) []ast.Expr {
+	call, ok := unparen(e).(*ast.CallExpr)
+	if !ok || len(call.Args) != 0 {
+		return nil
+	}
+	f := calleeFunc(info, call)
+	if f == nil {
+		return nil
+	}
+	d := fnDecls[f]
+	if d == nil || d.Recv == nil || d.Body == nil || len(d.Recv.List) != 1 || len(d.Recv.List[0].Names) != 1 {
+		return nil
+	}
+	recvName := d.Recv.List[0].Names[0].Name
+	isField := func(x ast.Expr) bool {
+		sel, ok := unparen(x).(*ast.SelectorExpr)
+		if !ok {
+			return false
+		}
+		id, ok := unparen(sel.X).(*ast.Ident)
+		return ok && id.Name == recvName
+	}
+	var rets []ast.Expr
+	switch len(d.Body.List) {
+	case 1:
+		r, ok := d.Body.List[0].(*ast.ReturnStmt)
+		if !ok {
+			return nil
+		}
+		rets = r.Results
+	case 2:
+		as, ok := d.Body.List[0].(*ast.AssignStmt)
+		r, ok2 := d.Body.List[1].(*ast.ReturnStmt)
+		if !ok || !ok2 || len(r.Results) != 0 || as.Tok != token.ASSIGN || len(as.Lhs) != len(as.Rhs) || d.Type.Results == nil {
+			return nil
+		}
+		var names []string
+		for _, fl := range d.Type.Results.List {
+			for _, nm := range fl.Names {
+				names = append(names, nm.Name)
+			}
+		}
+		if len(names) != len(as.Lhs) {
+			return nil
+		}
+		for i, l := range as.Lhs {
+			id, ok := l.(*ast.Ident)
+			if !ok || id.Name != names[i] {
+				return nil
+			}
+		}
+		rets = as.Rhs
+	default:
+		return nil
+	}
+	for _, r := range rets {
+		if !isField(r) {
+			return nil
+		}
+	}
+	return rets
 }
 
 // localFnVals: locals defined exactly once, by a method value or a function name (program-wide, filled before the rules
@@ -370,6 +493,15 @@ func init() {
 	core.PreRun = append(core.PreRun, func(p *core.Program) {
 		fill := func(pk *packages.Package) {
 			info := pk.TypesInfo
+			for _, file := range pk.Syntax {
+				for _, d := range file.Decls {
+					if fd, ok := d.(*ast.FuncDecl); ok && fd.Body != nil {
+						if o, ok := info.Defs[fd.Name].(*types.Func); ok {
+							fnDecls[o] = fd
+						}
+					}
+				}
+			}
 			count := map[*types.Var]int{}
 			target := map[*types.Var]*types.Func{}
 			lits := map[*types.Var]*ast.FuncLit{}
@@ -475,4 +607,10 @@ func singleDefOf(info *types.Info, fd *ast.FuncDecl, o types.Object) ast.Expr {
 		return def
 	}
 	return nil
+}
+
+// isIntType: a (named or plain) integer type.
+func isIntType(t types.Type) bool {
+	b, ok := t.Underlying().(*types.Basic)
+	return ok && b.Info()&types.IsInteger != 0
 }
